@@ -5,6 +5,7 @@ import (
 	"fmt"
 	"io/ioutil"
 	"os"
+	"os/exec"
 	"path"
 	"sort"
 	"strings"
@@ -443,7 +444,7 @@ func (w *c18World) toCase() Case {
 	}
 	c := Case{"op": "config.load", "files": fl, "dirs": hxs(dl), "env": env,
 		"switches": obj("config", hx(w.swConfig), "basepath", hx(w.swBase)),
-		"argv0": hx(w.argv0), "cwd": hx(vroot)}
+		"argv0":    hx(w.argv0), "cwd": hx(vroot)}
 	if len(w.links) > 0 {
 		c["links"] = hxs(w.links)
 	}
@@ -602,7 +603,12 @@ func genC18World(g *Gen, malformed bool) *c18World {
 func init() {
 	ops["config.load"] = runConfigLoad
 
+	ops["cli.switches"] = runCliSwitches
 	register("c18", func(g *Gen, tier string, emit func(Case)) {
+		// the real binary: the -basepath switch against LAYERROOT, in the spellings main sees
+		for _, sp := range []string{"/", "//", "@A", "@A/", "@A//.", "=@A", "=/"} {
+			emit(Case{"op": "cli.switches", "basepath": hx(sp)})
+		}
 		n := 1500
 		if tier == "thorough" {
 			n = 40000
@@ -611,4 +617,40 @@ func init() {
 			emit(genC18World(g, i%8 == 7).toCase())
 		}
 	})
+}
+
+// runCliSwitches runs the real layercake binary with LAYERROOT naming installation E and the
+// -basepath switch naming installation A (or the root directory, which holds none): the
+// switch wins, so the listing shows A's layer (or fails) and never E's.
+func runCliSwitches(c Case) interface{} {
+	bin := os.Getenv("VERIF_LAYERCAKE")
+	if bin == "" {
+		return obj("harness-error", "VERIF_LAYERCAKE not set")
+	}
+	scratch := os.Getenv("VERIF_SCRATCH")
+	if scratch == "" {
+		scratch = os.TempDir()
+	}
+	dir, err := ioutil.TempDir(scratch, "clisw")
+	if err != nil {
+		return obj("harness-error", err.Error())
+	}
+	defer os.RemoveAll(dir)
+	for _, inst := range []string{"A", "E"} {
+		lp := dir + "/" + inst + "/layers/layer-of-" + inst
+		os.MkdirAll(lp+"/build", 0755)
+		os.MkdirAll(dir+"/"+inst+"/export", 0755)
+		ioutil.WriteFile(lp+"/layerconfig", []byte("import proc /proc /proc\n"), 0644)
+		ioutil.WriteFile(dir+"/"+inst+"/default_layerconfig.skel", []byte("import proc /proc /proc\n"), 0644)
+	}
+	sp := strings.ReplaceAll(unhx(c["basepath"]), "@A", dir+"/A")
+	args := []string{"-basepath", sp, "list"}
+	if strings.HasPrefix(sp, "=") {
+		args = []string{"-basepath" + sp, "list"}
+	}
+	cmd := exec.Command(bin, args...)
+	cmd.Dir = dir
+	cmd.Env = []string{"LAYERROOT=" + dir + "/E", "HOME=" + dir, "PATH=/usr/bin:/bin"}
+	out, _ := cmd.CombinedOutput()
+	return obj("shows_switch_tree", strings.Contains(string(out), "layer-of-A"), "shows_env_tree", strings.Contains(string(out), "layer-of-E"))
 }
